@@ -578,9 +578,6 @@ class FileSystemSink(DataSink):
 
         file_path = os.path.join(obj_dir, filename + ".json")
 
-        if not os.path.exists(obj_dir):
-            os.makedirs(obj_dir)
-
         if self.bundlify:
             if 'spec_version' in stix_obj:
                 # Assuming future specs will allow multiple SDO/SROs
@@ -593,8 +590,16 @@ class FileSystemSink(DataSink):
         if os.path.isfile(file_path):
             raise DataSourceError("Attempted to overwrite file (!) at: {}".format(file_path))
 
+        # Serialize before anything is created: if that fails, no directory
+        # and no empty file must be left behind.
+        text = io.StringIO()
+        fp_serialize(stix_obj, text, pretty=pretty, encoding=encoding, ensure_ascii=False)
+
+        if not os.path.exists(obj_dir):
+            os.makedirs(obj_dir)
+
         with io.open(file_path, mode='w', encoding=encoding) as f:
-            fp_serialize(stix_obj, f, pretty=pretty, encoding=encoding, ensure_ascii=False)
+            f.write(text.getvalue())
 
     def add(self, stix_data=None, version=None, pretty=True):
         """Add STIX objects to file directory.
